@@ -240,3 +240,5 @@ Print Assumptions C17_twt_lambda_true.
 Print Assumptions C17_table_rule_lookup.
 Print Assumptions C17_decimal_rendering.
 Print Assumptions C17_rrt_table_rule.
+From CPL Require Import gen.GenFuns_C17 GenProps.GenFunsEquivC17 GenProps.C17Src. (* source tie: gen/GenFuns_C17.v is regenerated from rule_tables.py on every run *)
+Theorem C17_source_tie : forall (nb : list nat) (t : table), src_table_rule nb t = table_rule nb t. Proof. exact C17_source_translation_agrees. Qed. Print Assumptions C17_source_tie.
